@@ -83,6 +83,7 @@ func contextByName(n string) *contextT {
 
 type plan struct {
 	senVecs    []optVec
+	indentVecs []optVec // indent-chains family
 	prettySm   []optVec
 	prettyFull []optVec
 	wls        []int
@@ -97,6 +98,12 @@ func newPlan(quick bool) *plan {
 	layouts := []layout{{0, false}, {2, false}, {0, true}}
 	if !quick {
 		layouts = []layout{{0, false}, {1, false}, {2, false}, {4, false}, {0, true}}
+	}
+	for _, sorted := range []bool{false, true} {
+		for _, in := range gens.IndentValues {
+			p.indentVecs = append(p.indentVecs, optVec{Indent: in, Sort: sorted})
+		}
+		p.indentVecs = append(p.indentVecs, optVec{Tab: true, Sort: sorted})
 	}
 	for _, l := range layouts {
 		for m := 0; m < 4; m++ {
@@ -313,6 +320,7 @@ func run(c *core.Ctx) {
 	leaves := []any{nil, false, int64(-7), 1.5, "", "ab", "a b"}
 	gens.Trees(c.Pick(4, 5), leaves, []string{"k", "b b", "c"}, tree("trees", !c.Quick()))
 	gens.Chains([]any{nil, "", int64(1), "x"}, tree("chains", true))
+	gens.IndentChains(tree("indent-chains", false))
 	gens.Tables(c.Quick(), !c.Quick(), tree("tables", true))
 }
 
@@ -401,7 +409,7 @@ func (r *runner) value(fam string, ctx *contextT, s string, t any, fullPretty bo
 		c.Nontrivial()
 	}
 	multi := wref.MaxMembers(t) >= 2
-	fails := r.evalAll(t, multi, fullPretty)
+	fails := r.evalAll(fam, t, multi, fullPretty)
 	if len(fails) == 0 {
 		if wref.Size(t) > 3 {
 			r.samples++
@@ -479,7 +487,7 @@ func (r *runner) value(fam string, ctx *contextT, s string, t any, fullPretty bo
 	return
 }
 
-func (r *runner) evalAll(t any, multi, fullPretty bool) (fails []failure) {
+func (r *runner) evalAll(fam string, t any, multi, fullPretty bool) (fails []failure) {
 	jcache := map[string]verdict{}
 	pv := r.plan.prettySm
 	if fullPretty {
@@ -497,8 +505,12 @@ func (r *runner) evalAll(t any, multi, fullPretty bool) (fails []failure) {
 				fails = append(fails, r.evalVariant(e, t, &pv[i], multi, jcache)...)
 			}
 		default:
-			for i := range r.plan.senVecs {
-				fails = append(fails, r.evalVariant(e, t, &r.plan.senVecs[i], multi, jcache)...)
+			sv := r.plan.senVecs
+			if fam == "indent-chains" {
+				sv = r.plan.indentVecs
+			}
+			for i := range sv {
+				fails = append(fails, r.evalVariant(e, t, &sv[i], multi, jcache)...)
 			}
 		}
 	}
